@@ -23,6 +23,8 @@ def compare(rec, b, mjm, mjd, m, d, cmp, opts):
   mujoco.mj_forward(mjm, mjd)
   mjw.forward(m, d)
   sd = d.sensordata.numpy()
+  # acceleration-stage sensors are computed from solver outputs: tolerance relative to the magnitude of the forces involved
+  fscale = max([1.0] + [float(np.abs(x).max()) for x in (mjd.qfrc_constraint, mjd.qacc, mjd.cfrc_int, mjd.cacc) if x.size]) if mjd.nefc else None
   for w in range(d.nworld):
     # per sensor, so that a violation names the sensor type
     for s in range(mjm.nsensor):
@@ -36,7 +38,8 @@ def compare(rec, b, mjm, mjd, m, d, cmp, opts):
                 int(mujoco.mjtObj.mjOBJ_SITE): lambda i: mjm.site_bodyid[i], int(mujoco.mjtObj.mjOBJ_CAMERA): lambda i: mjm.cam_bodyid[i]}.get(int(ot), lambda i: -1)(int(oid))
         if body >= 0 and mjm.body_treeid[body] < 0:
           name += "@static_body"
-      cmp.close(name, sd[w, a : a + n], mjd.sensordata[a : a + n], stage_tol)
+      acc = mjm.sensor_needstage[s] == mujoco.mjtStage.mjSTAGE_ACC
+      cmp.close(name, sd[w, a : a + n], mjd.sensordata[a : a + n], stage_tol, scale=fscale if acc else None)
     cmp.close("energy", d.energy.numpy()[w], mjd.energy, 1e-4)
 
 
